@@ -240,7 +240,18 @@ func directCallees(c *Ctx, fn *ssa.Function, out map[string]bool, mods map[*ssa.
 	directCalleeCounts(c, fn, out, nil, mods)
 }
 
+// counts[n] is the number of DISTINCT sites of n: call sites whose receiver and arguments (stores: whose target
+// object) are described alike count once, so hoisting a repeated getter call into a local, or merging the two
+// stores of an if/else into one, changes nothing, while dropping the same test on another value does.
 func directCalleeCounts(c *Ctx, fn *ssa.Function, out map[string]bool, counts map[string]int, mods map[*ssa.Function]bool) {
+	distinct := map[string]bool{}
+	bump := func(n, desc string) {
+		if counts == nil || distinct[n+"|"+desc] {
+			return
+		}
+		distinct[n+"|"+desc] = true
+		counts[n]++
+	}
 	var walk func(f *ssa.Function)
 	walk = func(f *ssa.Function) {
 		for _, b := range f.Blocks {
@@ -249,9 +260,7 @@ func directCalleeCounts(c *Ctx, fn *ssa.Function, out map[string]bool, counts ma
 					if out != nil {
 						out[n] = true
 					}
-					if counts != nil {
-						counts[n]++
-					}
+					bump(n, describeVal(in.(*ssa.Store).Addr.(*ssa.FieldAddr).X, 0))
 					continue
 				}
 				ci, ok := in.(ssa.CallInstruction)
@@ -262,9 +271,14 @@ func directCalleeCounts(c *Ctx, fn *ssa.Function, out map[string]bool, counts ma
 					if out != nil {
 						out[n] = true
 					}
-					if counts != nil {
-						counts[n]++
+					var ds []string
+					if ci.Common().IsInvoke() {
+						ds = append(ds, describeVal(ci.Common().Value, 0))
 					}
+					for _, a := range ci.Common().Args {
+						ds = append(ds, describeVal(a, 0))
+					}
+					bump(n, strings.Join(ds, ","))
 				}
 				if cal := ci.Common().StaticCallee(); cal != nil && cal.Parent() == nil && cal.Blocks != nil && c.P.InModule(cal) && mods != nil {
 					mods[cal] = true
